@@ -7,7 +7,7 @@ Depending on the service_type_ident different types of body classes are instanti
 
 from __future__ import annotations
 
-from xknx.exceptions import CouldNotParseKNXIP, IncompleteKNXIPFrame
+from xknx.exceptions import CouldNotParseKNXIP, IncompleteKNXIPFrame, XKNXException
 
 from .body import KNXIPBody
 from .connect_request import ConnectRequest
@@ -146,7 +146,15 @@ class KNXIPFrame:
             raise CouldNotParseKNXIP(
                 f"KNXIPServiceType not implemented: {header.service_type_ident.name}"
             )
-        body.from_knx(raw_body)
+        try:
+            body.from_knx(raw_body)
+        except CouldNotParseKNXIP:
+            raise
+        except (IndexError, ValueError, XKNXException) as err:
+            # undeclared errors of body parsers (empty bodies, unknown enum codes)
+            raise CouldNotParseKNXIP(
+                f"Could not parse {header.service_type_ident.name} body: {err!r}"
+            ) from err
         return KNXIPFrame(header=header, body=body), data[header.total_length :]
 
     def to_knx(self) -> bytes:
